@@ -72,3 +72,15 @@ Definition C11_case (d : tdecl) (prm : sparams) (can_refetch : bool) (regions : 
    && forallb (inside_one_region regions) t
    && forallb2 (fun p r => pres_eqb (probe_spec can_refetch regions t p) r) probes results,
    kf_region_order regions probes).
+
+(* strings that are not text strings (hex / regex, MatcherKind::Atomized or Raw): their matcher is
+   not modelled here; the fragmented list is compared with the per-region scans only, the probes
+   with both the model and the specification *)
+Definition C11_case_other (prm : sparams) (can_refetch : bool) (regions : list fregion)
+           (per_region : list (list smatch)) (t : list smatch)
+           (probes : list probe) (results : list pres) : bool * bool * N :=
+  (forallb2 (fun p r => pres_eqb (probe_model can_refetch regions t p) r) probes results,
+   list_eqb smatch_eqb t (frag_union per_region regions)
+   && forallb (inside_one_region regions) t
+   && forallb2 (fun p r => pres_eqb (probe_spec can_refetch regions t p) r) probes results,
+   kf_region_order regions probes).
